@@ -20,18 +20,22 @@ def jobs(tier):
             witnesses=['book without used entries','all vectors decoded','end of packet inside the vector'],models=['decode_packed_entry_number cut: arbitrary entry sequence / end of packet'],
             functions=[['vorbis_book_decodevs_add','vorbis_book_decodev_add','vorbis_book_decodev_set','vorbis_book_decodevv_add'][var]],
             bounds='book dimension %d, %d scalars%s, 3 used entries or none; adding decoders on concrete distinct tags, decodev_set on symbolic values'%(dim,n,' over 2-3 channels' if var==3 else ''),weight=1))
-    f1=[(1,2,1),(2,1,0),(1,3,2)] if q else [(1,2,1),(2,1,0),(1,3,2),(2,2,1),(1,4,0),(3,1,1)]
-    for parts,cdim,csub in f1:
+    f1=[(1,2,1,0),(1,3,2,None),(2,1,0,None)] if q else [(1,2,1,0),(2,1,0,1),(1,3,2,None),(2,2,1,2),(1,4,0,1),(3,1,1,0),(2,2,1,None),(2,3,2,1)]
+    for parts,cdim,csub,pl in f1:
         posts=parts*cdim+2
-        J.append(Job('K-floor1-p%d-d%d-s%d'%(parts,cdim,csub),'C01/k_floor1.c',defs=['-DPARTS=%d'%parts,'-DCDIM=%d'%cdim,'-DCSUB=%d'%csub],unwind=posts+3,unwindset=[('ov_ilog',None,34)],checks=['leak'],object_bits=10,flags=['--no-undefined-shift-check'],
-            witnesses=['decoded, values in range','a post declined (flag unset)','decoded, out-of-range amplitudes','unused or end of packet'],models=['M-bitsrc','M-libc qsort (insertion sort on <=%d pointers)'%posts,'vorbis_book_decode cut: arbitrary entry number / end of packet, records the book'],
-            functions=['floor1_look','floor1_inverse1','render_point','floor1_free_look'],bounds='%d partition(s) of class 0, dimension %d, %d subclass bits => %d posts at distinct symbolic positions < 64; book outputs 0..2^24-1'%(parts,cdim,csub,posts),weight=3))
+        J.append(Job('K-floor1-p%d-d%d-s%d-%s'%(parts,cdim,csub,'sym' if pl is None else 'L%d'%pl),'C01/k_floor1.c',defs=['-DPARTS=%d'%parts,'-DCDIM=%d'%cdim,'-DCSUB=%d'%csub]+([] if pl is None else ['-DPL=%d'%pl]),unwind=posts+3,unwindset=[('ov_ilog',None,34)],checks=['leak'],object_bits=10,flags=['--no-undefined-shift-check'],
+            witnesses=(['decoded','unused or end of packet'] if pl is None else ['decoded, values in range','a post declined (flag unset)','decoded, out-of-range amplitudes','unused or end of packet']),models=['M-bitsrc','M-libc qsort (insertion sort on <=%d pointers)'%posts,'vorbis_book_decode cut: consumes 1..32 bits, arbitrary entry number / end of packet, records the book'],
+            functions=['floor1_look','floor1_inverse1','render_point','floor1_free_look'],bounds='%d partition(s) of class 0, dimension %d, %d subclass bits => %d posts; %s; book outputs 0..2^24-1; left shift of a negative room (out-of-range amplitudes) not checked (observation D26)'%(parts,cdim,csub,posts,'positions symbolic, distinct, < 64 (look tables, book order, memory safety)' if pl is None else 'concrete post layout %d, value oracle'%pl),weight=3))
     for x0,x1,nm in ([(0,7,9),(2,9,8)] if q else [(0,7,9),(2,9,8),(0,16,16),(5,6,8),(1,13,10)]):
         J.append(Job('f1-line-%d-%d'%(x0,x1),'C01/f1_render.c',defs=['-DWHICH=0','-DNMAX=%d'%nm,'-DX0=%d'%x0,'-DX1=%d'%x1],unwind=nm+2,witnesses=['line drawn']+(['falling line, several steps'] if x1-x0>3 else []),functions=['render_line'],models=[],
             bounds='line from x=%d to x=%d, n 0..%d, both amplitudes 0..255'%(x0,x1,nm),weight=2))
     for posts,nh in ([(4,16),(4,64)] if q else [(4,16),(4,64),(5,16),(5,64)]):
         J.append(Job('f1-curve-%d-n%d'%(posts,nh),'C01/f1_render.c',defs=['-DWHICH=1','-DPOSTS=%d'%posts,'-DNHALF=%d'%nh],cuts={'floor1.c':['render_line']},unwind=66,object_bits=10,witnesses=['two or more lines','a post skipped','unused']+(['tail filled'] if nh>32 else []),
             functions=['floor1_inverse2','floor1_look'],models=['M-libc qsort (insertion sort)','render_line cut: records its calls (its own job: f1-line)'],bounds='%d posts at distinct symbolic positions < 32, block half size %d, symbolic amplitudes/flags, mult 1..4'%(posts,nh),weight=2))
+    for ty in (0,1,2):
+        J.append(Job('K-res-type%d'%ty,'C01/k_res.c',defs=['-DTYPE=%d'%ty],unwind=5,unwindset=[('ov_ilog',None,34),('harness',r'i<6',7),('harness',r'i<pv',6),('_01inverse',r'i<partvals',6),('res2_inverse',r'i<partvals',6)],object_bits=10,
+            witnesses=['two passes over three or more partitions','ended by end of packet','nothing to decode'],models=['classification word / partition decoders cut: recorded calls (K-bookvec decides the decoders)','_vorbis_block_alloc = malloc'],
+            functions=['res0_look','res%d_inverse'%ty,'_01inverse' if ty<2 else 'res2_inverse','res0_free_look'],bounds='2 classifications, 2 words per class codeword, partition size 2, 2 channels of 8 samples, cascades < 8 (<=3 passes), begin/end 0..24',weight=3))
     J+=other('C02',tier,lambda j:j.name.startswith('K-synth') or j.name=='P-quantvals' or j.name.startswith('K-floor0'))
     J+=blk(tier,lambda j:j.name.startswith('blockin-step'))[:2 if q else 99]
     return J
